@@ -230,6 +230,8 @@ func c08HeaderShapes() []c08hshape {
 		{name: "string-enum", schema: gen.S{"type": "string", "enum": gen.Arr("a", "b")}, good: []string{"a"}, bad: []string{"c"}},
 		{name: "boolean", schema: gen.S{"type": "boolean"}, good: []string{"true", "false"}, junk: []string{"maybe"}},
 		{name: "array-integer", schema: gen.S{"type": "array", "items": gen.S{"type": "integer"}, "maxItems": 2.0}, good: []string{"1", "1,2"}, bad: []string{"1,2,3"}, junk: []string{"1,x"}},
+		// sent with an empty value: no reading of "" is an array of at least one integer
+		{name: "array-integer-min1", schema: gen.S{"type": "array", "items": gen.S{"type": "integer"}, "minItems": 1.0}, good: []string{"1", "1,2"}, bad: []string{""}, junk: []string{"1,x"}},
 		{name: "object", schema: gen.S{"type": "object", "properties": gen.S{"a": gen.S{"type": "integer"}, "b": gen.S{"type": "string"}}, "required": gen.Arr("a")}, good: []string{"a,1", "a,1,b,x"}, bad: []string{"b,x"}, junk: []string{"a,one", "a"}},
 		{name: "object-explode-false-written", schema: gen.S{"type": "object", "properties": gen.S{"a": gen.S{"type": "integer"}, "b": gen.S{"type": "string"}}, "required": gen.Arr("a")}, good: []string{"a,1", "a,1,b,x"}, bad: []string{"b,x"}, junk: []string{"a,one", "a", "a=1"}, explicitFalse: true},
 		{name: "array-explode-false-written", schema: gen.S{"type": "array", "items": gen.S{"type": "integer"}, "maxItems": 2.0}, good: []string{"1", "1,2"}, bad: []string{"1,2,3"}, junk: []string{"1,x"}, explicitFalse: true},
